@@ -37,7 +37,7 @@ fn direct_constant(words: &[String]) -> Option<anything::Constant> {
 }
 
 /// Differential between the two decode paths: file -> Constant, and file -> index payload -> Constant.
-fn differential(db: &anything::Db, words: &[String], q: &str) -> Option<(String, String)> {
+pub fn differential(db: &anything::Db, words: &[String], q: &str) -> Option<(String, String)> {
     let direct = direct_constant(words)?;
     let parsed = anything::parse(q).ok()?;
     let mut descs = Vec::new();
@@ -46,8 +46,11 @@ fn differential(db: &anything::Db, words: &[String], q: &str) -> Option<(String,
         return None;
     }
     let anything::Description::Constant(_, c) = &descs[0];
-    if c.tokens != direct.tokens {
+    if c.description != direct.description {
         return None; // another constant carrying the same words: judged by the word clauses, not here
+    }
+    if c.tokens != direct.tokens {
+        return Some(("indexed-constant-differs-from-file:tokens".into(), format!("through the index {:?}, straight from the file {:?}", c.tokens, direct.tokens)));
     }
     if c.unit != direct.unit || c.unit.to_string() != direct.unit.to_string() || c.unit.display(true).to_string() != direct.unit.display(true).to_string() {
         return Some(("indexed-constant-differs-from-file:unit".into(), format!("through the index `{}` ({:?}), straight from the file `{}` ({:?}); equal: {}", c.unit, crate::tool::mirror(&c.unit), direct.unit, crate::tool::mirror(&direct.unit), c.unit == direct.unit)));
